@@ -93,6 +93,22 @@ def gen_world(rng):
                 age = rng.choice([0, 1, NS, 31 * NS])
                 items.append(("P", t, 1, d, 0, phc, refid, leap, ITV4, 0, age // NS, age % NS, corr, delay, disp))
                 anchor = (tr, e_r)
+                if cfg >= 0 and refid == cfg and phc >= 0 and age <= NS and rng.random() < 0.5:
+                    # chronyd repeats the same reference time at the next poll (no new measurement) while the
+                    # PHC driver reports a larger error bound, which now has to carry most of the clock error
+                    truth.append(None)
+                    t2 = t + d + rng.choice([NS, NS + rng.randrange(NS), 3 * NS])
+                    age2 = age + t2 - (t + d)
+                    lim2 = abs(anchor[1]) + rho * (t2 - anchor[0])
+                    e_r2 = lim2 * (1 if anchor[1] >= 0 else -1)
+                    phc2 = int(abs(e_r2)) + rng.choice([0, 1, 5000])
+                    corr2, delay2, disp2 = cfloat.encode(0.0), cfloat.encode(0.0), cfloat.encode(1e-6)
+                    items.append(("P", t2, 1, 0, 0, phc2, refid, leap, ITV4, 0, age2 // NS, age2 % NS, corr2, delay2, disp2))
+                    anchor = (t2, e_r2)
+                    truth.append(None)
+                    t = client_call(t2 + rng.choice([1, 1000, NS // 2]))
+                    d = 0
+                    continue
             elif kind < 0.7:         # answered but unsynchronised (leap 3) or stale
                 stale = rng.random() < 0.5
                 age = (33 * NS + rng.randrange(100 * NS)) if stale else 0
@@ -123,6 +139,11 @@ def gen_world(rng):
                 items.append(("F",))
                 truth.append(None)
             t += rng.choice([1, NS, 3 * NS])
+            if rng.random() < 0.5:
+                # a new daemon starts over the segment and dies before its first publication
+                items.append(("N", t))
+                truth.append(None)
+                t += rng.choice([1, NS])
             for _c in range(rng.randrange(1, 3)):
                 t = client_call(t)
     return drift, cfg, items, truth
@@ -215,7 +236,7 @@ def replay(res, path):
     t = ln.split()
     items, k = [], 4
     for _ in range(int(t[3])):
-        n = {"P": 15, "C": 5, "R": 2, "K": 2, "F": 1}[t[k]]
+        n = {"P": 15, "C": 5, "R": 2, "K": 2, "F": 1, "N": 2}[t[k]]
         items.append(tuple([t[k]] + [int(x) for x in t[k + 1:k + n]]))
         k += n
     m = c.run_model([model_line_of(int(t[1]), int(t[2]), items)])[0]
